@@ -2027,6 +2027,31 @@ func candidatesChosenByIdentityOnly(c *Ctx, r *Report, rule string) {
 	sf := p.SSAFunc(diff)
 	isEntry := func(t types.Type) bool { return t != nil && isNamed(t, p.pkgPath("iface"), "IPFSLogEntry") }
 	allowed := map[string]bool{"GetLogID": true, "GetHash": true, "GetNext": true}
+	// a first-party helper handed the entry is fine when it, too, looks at nothing but the identity
+	readsIdentityOnly := func(g *ssa.Function) bool {
+		if g.Blocks == nil {
+			return false
+		}
+		ok := true
+		allInstrs(g, true, func(ins ssa.Instruction) {
+			cc, isCall := ins.(*ssa.Call)
+			if !isCall {
+				return
+			}
+			if cc.Call.IsInvoke() {
+				if isEntry(cc.Call.Value.Type()) && !allowed[cc.Call.Method.Name()] {
+					ok = false
+				}
+				return
+			}
+			for _, a := range cc.Call.Args {
+				if isEntry(a.Type()) {
+					ok = false // handed on once more: not followed
+				}
+			}
+		})
+		return ok
+	}
 	n := 0
 	allInstrs(sf, false, func(ins ssa.Instruction) {
 		call, ok := ins.(*ssa.Call)
@@ -2057,10 +2082,14 @@ func candidatesChosenByIdentityOnly(c *Ctx, r *Report, rule string) {
 					bad, badPos = cc.Call.Method.Name()+"() of the entry", cc.Pos()
 				case !cc.Call.IsInvoke():
 					if cal := cc.Call.StaticCallee(); cal != nil {
+						takesEntry := false
 						for _, a := range cc.Call.Args {
 							if isEntry(a.Type()) {
-								bad, badPos = cal.Name()+"(entry)", cc.Pos()
+								takesEntry = true
 							}
+						}
+						if takesEntry && !readsIdentityOnly(cal) {
+							bad, badPos = cal.Name()+"(entry)", cc.Pos()
 						}
 					}
 				}
